@@ -16,6 +16,7 @@ NOTE = ("Trusted: bitarray C extension (replaced by a model that is differential
 
 # property -> (technique, design section, extra note) ; None = not yet claimed
 CLAIMED = {
+    'C17': ("symbolic execution (CrossHair/z3) of tobytes/tofile/bytes and window read-back through bytes, BytesIO, filename and file-handle routes (fake mmap over symbolic content; chunk hook)", "DESIGN.md 5/C17", ""),
     'C11': ("direct z3 queries: every lookup table as an If-tree vs the format definition over the whole index domain; CrossHair path obligations on the real encoders/decoders with the table opaque", "DESIGN.md 5/C11", ""),
     'C12': ("symbolic execution (CrossHair/z3) of every position-taking operation under lsb0 against the absolute msb0 oracle on reversed operands", "DESIGN.md 5/C12", ""),
     'C05': ("symbolic execution (CrossHair/z3) of pack/unpack/token strings over a format catalogue with symbolic values, keyword lengths and stretchy contents", "DESIGN.md 5/C05", ""),
@@ -65,7 +66,7 @@ def main():
             'guard': 'SCOTT_GRIFFITHS_BITSTRING_VERIF',
             'enable': 'check.py sets SCOTT_GRIFFITHS_BITSTRING_VERIF=1 in its own environment; /repo is imported from its working tree (pure Python, nothing to build)',
             'baseline_off_cmd': 'cd /repo && env -u SCOTT_GRIFFITHS_BITSTRING_VERIF /venv/bin/python -m pytest -ra -q -p no:cacheprovider --timeout=900 --continue-on-collection-errors',
-            'source_commits': [],
+            'source_commits': ['2a1e07b'],
             'add_only': True,
         },
         'engines': [{
